@@ -97,6 +97,8 @@ class FunctionReport:
         self.explore_s = 0.0
         self.assumptions = set()
         self.exits = {"return": 0, "raise": {}, "cut": 0}
+        self.covers = {}  # cover clause -> [(pc, term)] candidates (a literally true one first)
+        self.infeasible = 0
 
 
 def make_args(it, con, fn, node):
@@ -229,6 +231,11 @@ def run_one_path(env, con, fn, ctx):
         for f in con.clause_list("ensures"):
             rr = eval_clause(it, f, ns_exit({"result": result}))
             ctx.oblige(f"{tag}/ensures.{f.__name__}", ops.truth_term(rr), assume_after=False)
+        # reachability ("cover") clauses: situations the exploration must reach at a normal exit - a guard against
+        # vacuous success (a stub or a contradictory assumption silently cutting the interesting paths)
+        for f in con.clause_list("covers"):
+            rr = eval_clause(it, f, ns_exit({"result": result}))
+            ctx.covers.append((f.__name__, list(ctx.pc), z3.simplify(ops.truth_term(rr)) if not isinstance(ops.truth_term(rr), bool) else z3.BoolVal(ops.truth_term(rr))))
         return ("return", None)
     finally:
         env.assumptions_used |= set()
@@ -262,7 +269,7 @@ def explore(env, con, max_paths=None):
             else:
                 rep.exits["raise"][kind[1]] = rep.exits["raise"].get(kind[1], 0) + 1
         except Infeasible:
-            pass
+            rep.infeasible += 1
         except PathEnd:
             rep.exits["cut"] += 1
         except Unsupported as u:
@@ -273,6 +280,14 @@ def explore(env, con, max_paths=None):
             rep.undecided = "recursion limit in interpreter"
             break
         rep.obligations.extend(ctx.obligations)
+        for name, pc, term in getattr(ctx, "covers", []):
+            if z3.is_false(term):
+                continue
+            lst = rep.covers.setdefault(name, [])
+            if z3.is_true(term):
+                lst.insert(0, (pc, term))
+            elif len(lst) < 12:
+                lst.append((pc, term))
         rep.paths += 1
         if rep.paths > max_paths:
             rep.undecided = f"more than {max_paths} paths"
